@@ -125,7 +125,8 @@ def mc_constants(scn, fixes):
         'MC_Pool0 == %d' % scn['pool'],
         'MC_NPipe == %d' % scn.get('pipes', 0),
         'MC_MaxDW == %d' % ndw,
-        'MC_Single == %s' % ('TRUE' if len(threads) == 1 else 'FALSE'),
+        # one context uses the objects (threads that only fire external events, or wake retained wakers, are event sources, not users)
+        'MC_Single == %s' % ('TRUE' if sum(1 for t in scn['threads'] if any(op['k'] not in ('fire', 'spur') for op in t['ops'])) <= 1 else 'FALSE'),
     ]
     for f in ['FixD1', 'FixD2', 'FixD3', 'FixD5', 'FixD6']:
         lines.append('MC_%s == %s' % (f, 'TRUE' if fixes.get(f, False) else 'FALSE'))
